@@ -292,6 +292,24 @@ pub fn run(ctx: &mut Ctx) {
             }
         }
     }
+    // raw bytes: every sample URI with an invalid-UTF-8 byte (or a truncated multi-byte sequence) at every position
+    if ctx.shard == 1 % ctx.nshards {
+        for base in ["/a/b", "http://h/a", "http://ab/c", "http://h:80/x/y", "http://", "http://a", "a/b", "http:///p", "/\u{e9}/x"] {
+            let b = base.as_bytes();
+            for pos in 0..=b.len() {
+                for ins in [&[0xFFu8][..], &[0xC3], &[0x80], &[0xE2, 0x82], &[0xC3, 0x28]] {
+                    let mut u = b.to_vec();
+                    u.splice(pos..pos, ins.iter().cloned());
+                    check_raw_uri(ctx, &u);
+                    if pos < b.len() {
+                        let mut u = b.to_vec();
+                        u[pos] = ins[0];
+                        check_raw_uri(ctx, &u);
+                    }
+                }
+            }
+        }
+    }
     // the enumeration never reaches "http://" + authority + path at length <= 9 with much variety:
     // add the systematic family http://<authority><path> over small authority/path sets
     if ctx.shard == 0 {
@@ -310,8 +328,42 @@ pub fn run(ctx: &mut Ctx) {
     }
 }
 
+/// A URI given as raw bytes (possibly invalid UTF-8): the request must be rejected, or else the
+/// absolute path must still be empty or a '/'-prefixed suffix of the URI (and never panic).
+fn check_raw_uri(ctx: &mut Ctx, uri: &[u8]) -> bool {
+    if !ctx.begin() {
+        return false;
+    }
+    ctx.rep.evaluations += 1;
+    ctx.rep.count("raw_uris_with_invalid_utf8");
+    let mut req = b"GET ".to_vec();
+    req.extend_from_slice(uri);
+    req.extend_from_slice(b" HTTP/1.1\r\n\r\n");
+    let case = J::obj(vec![("family", J::s("raw-uri")), ("uri_hex", J::hexs(uri)), ("uri_show", J::s(&show(uri)))]);
+    let got = guarded(|| Request::try_from(&req, None).map(|r| (crate::conn::uri_text(&r), r.uri().get_abs_path().to_string())));
+    match got {
+        Err(p) => {
+            ctx.rep.violation("C16:panic:get_abs_path", format!("URI {:?}: {}", show(uri), p), case);
+            true
+        }
+        Ok(Err(_)) => false,
+        Ok(Ok((text, path))) => {
+            ctx.rep.count("raw_uris_accepted");
+            if !(path.is_empty() || (path.starts_with('/') && text.ends_with(path.as_str()))) {
+                ctx.rep.violation("C16:abs-path", format!("URI bytes {:?} were accepted as {:?} and get_abs_path() = {:?}, which is neither empty nor a '/'-prefixed suffix", show(uri), text, path), case);
+                return true;
+            }
+            false
+        }
+    }
+}
+
 pub fn replay(ctx: &mut Ctx, case: &J) {
     ctx.only_case = None;
+    if case.gs("family") == "raw-uri" {
+        check_raw_uri(ctx, &case.ghex("uri_hex"));
+        return;
+    }
     match case.gs("family").as_str() {
         "token" => {
             let input = case.ghex("input_hex");
